@@ -6413,16 +6413,25 @@ class Path(Shape, MutableSequence):
     def reverse(self):
         if len(self._segments) == 0:
             return
-        prepoint = self._segments[0].start
-        self._segments[0].start = None
+        prepoint = None
+        if isinstance(self._segments[0], Move):
+            # Only a move's start is a mere back link, any other segment starts the geometry there.
+            prepoint = self._segments[0].start
+            self._segments[0].start = None
         p = Path()
         subpaths = list(self.as_subpaths())
         for subpath in subpaths:
             subpath.reverse()
         for subpath in reversed(subpaths):
+            if not isinstance(subpath[0], Move) and subpath[0].start is not None:
+                # A subpath without its own move began at the then current point, it needs one now.
+                # Leading an open fragment it stays implied, a close must have a move to return to.
+                if len(p) != 0 or isinstance(subpath[-1], Close):
+                    p.append(Move(end=subpath[0].start))
             p += subpath
         self._segments = p._segments
-        self._segments[0].start = prepoint
+        if isinstance(self._segments[0], Move):
+            self._segments[0].start = prepoint
         return self
 
     def subpath(self, index):
@@ -7801,7 +7810,9 @@ class Subpath:
             e -= 1
         start = self.index_to_path_index(start)
         end = self.index_to_path_index(end)
-        self._path._validate_connection(start - 1, prefer_second=True)
+        if start - 1 >= self._start:
+            # Without a move of its own the preceding segment belongs to another subpath.
+            self._path._validate_connection(start - 1, prefer_second=True)
         self._path._validate_connection(end)
 
     def reverse(self):
@@ -7816,17 +7827,21 @@ class Subpath:
             self[0], Move
         ):  # Move remains in place but references next element.
             start += 1
-        self._reverse_segments(start, end)
+        if start <= end:
+            self._reverse_segments(start, end)
         if size > 1:
             if isinstance(self[0], Move):
                 self[0].end = Point(self[1].start)
         last = self[-1]
         if isinstance(last, Close):
             last.reverse()
-            if last.start != self[-2].end:
-                last.start = Point(self[-2].end)
-            if last.end != self[0].end:
-                last.end = Point(self[0].end)
+            if size > 1:
+                if last.start != self[-2].end:
+                    last.start = Point(self[-2].end)
+                # The close returns to where the subpath begins: its move, or else its first segment.
+                origin = self[0].end if isinstance(self[0], Move) else self[0].start
+                if origin is not None and last.end != origin:
+                    last.end = Point(origin)
         return self
 
 
